@@ -124,6 +124,8 @@ func TestUnboundTypes(t *testing.T) {
 				return x.unbox()
 			}),
 		}
+		// a zero-size element type (the usual signal channel): only the NUMBER of values can differ
+		rs = append(rs, "zero:"+newTyped(t, cp, w[1], make([]int, len(vals)), func(int) struct{} { return struct{}{} }, func(struct{}) int { return 0 }))
 		fmt.Fprintf(fo, "%d %s\n", n, strings.Join(rs, " | "))
 		n++
 	}
